@@ -32,6 +32,19 @@ why = {
  'C14-m8': 'DeeplyAssign merges only non-empty maps, so an empty TOML table header overwrites what is at its path: a conjunct added to a guard, value-level',
  'C19-m7': 'the JSON decoder asks More() before decoding; goccy returns false on a stray closing bracket, which turns a syntax error into a clean end of input: the contract of a third-party call, not visible in the shape of the caller',
  'C19-m8': 'the XML encoder silently skips non-scalar attribute values instead of returning an error: the removed error was a value-level validation, no rule demands that every unsupported shape is rejected',
+ 'C01-m8': 'the two slice bound expressions are evaluated once, against the first array, instead of per array: the results are still clamped per array, so nothing structural breaks; which node an operand expression is evaluated against is value-level here',
+ 'C02-m9': 'auto-creation through a null is limited to nulls spelled "" or null: a string test added to a guard, value-level',
+ 'C04-m10': 'auto-creation in traverseMap is skipped for the empty key: a conjunct added to a guard, value-level',
+ 'C05-m9': 'header lines read with ReadSlice instead of ReadString (lines beyond the 4096-byte buffer are cut): the bufio contract, not the shape of the caller (same family as C06-m5)',
+ 'C05-m10': 'leading-content pre-processing switched on for the format names "yaml" and "y" but not "yml": a forgotten string in a list, value-level',
+ 'C06-m9': 'the printer explodes copies whose Alias pointers still target the un-exploded originals: an ordering fact between copy and explode; no rule models which alias targets have been exploded',
+ 'C09-m9': 'the four comparison rules share one action that derives its flags from the lexeme trimmed of blanks only, while the patterns also absorb tabs and newlines: a string computation on the lexeme, value-level (the extractor follows the new factory()(token) shape, so the check keeps its verdict)',
+ 'C10-m10': 'the document-separator pattern gains (?m) and matches anywhere in the leading content: a regular-expression flag, value-level',
+ 'C13-m9': 'a mapping value is decoded before its key, so an alias in the value that names the anchor on its own key resolves to nothing: decoding order, value-level',
+ 'C13-m10': 'the merge-key guard of doTraverseMap uses the glob matcher instead of the literal "<<": the set of patterns for which the merge is followed changes; N8 allows doTraverseMap to call the matcher',
+ 'C15-m9': 'a fast path parses plain numbers with ParseFloat, which also accepts nan/inf: which texts count as numbers is value-level',
+ 'C16-m10': 'keys skips entries tagged !!merge while to_entries does not: value-level disagreement between two operators',
+ 'C19-m10': 'only the first object of a CSV array is checked for nested values: the removed validation was value-level',
  'C18-m4': 'leading content printed only when non-empty: encoder-internal state is then not reset between documents; no rule models the encoder state machine',
 }
 res = {}
